@@ -3,10 +3,13 @@ package hx
 // RouterEnv: the REAL router started in-process (router.VerifRun) with loopback listeners, in front of
 // scripted fake upstream servers (UDP+TCP on one port each) run by the harness.
 //
-// cfgspec (one token, no spaces):  U=<kinds>;E=<0|1>;S=<set>,<set>..;R=<rule>,<rule>..[;C=<mem_size>][;L=<limit>:<burst>][;M=<maxconc>][;I=<idle_timeout s of tcp/gnet/tls>]
+// cfgspec (one token, no spaces):  U=<kinds>;E=<0|1>;S=<set>,<set>..;R=<rule>,<rule>..[;C=<mem_size>][;L=<limit>:<burst>][;M=<maxconc>]
+//   [;I=<idle_timeout s of tcp/gnet/tls>][;K=<hex of the ip-marker file text>][;T=1 tls/https/quic listeners][;W=1 wildcard multi-routes udp listener]
+//   [;Q=1 log.queries][;H=1 http.path][;D=<udp threads>]
 //   kinds : one letter per upstream: u = udp://, t = tcp://, p = tcp+pipeline://
 //   set   : entries joined by '+': f.<hex raw name> (full:) | d.<hex raw name> (domain:) | '-' for the empty set
 //   rule  : <set idx|->:<reverse 0|1>:<reject>:<upstream idx|->
+//   K     : hex of the text of an ip marker file (cache.ip_marker: lines "start,end,label"); absent = no marker
 
 import (
 	"bytes"
@@ -393,6 +396,17 @@ func NewRouterEnv(spec string) (*RouterEnv, error) {
 	cfg.ECS.Enabled = parts["E"] == "1"
 	if c := parts["C"]; c != "" {
 		cfg.Cache.MemSize, _ = strconv.Atoi(c)
+	}
+	if k := parts["K"]; k != "" {
+		text, err := UnHex(k)
+		if err != nil {
+			return nil, err
+		}
+		fp := filepath.Join(dir, "ipmarker.txt")
+		if err := os.WriteFile(fp, text, 0644); err != nil {
+			return nil, err
+		}
+		cfg.Cache.IpMarker = fp
 	}
 	if l := parts["L"]; l != "" {
 		a, b, _ := strings.Cut(l, ":")
